@@ -2,6 +2,7 @@
 C18 — version compatibility gate.
 -/
 import GontainerModel.Model.Semver
+import GontainerModel.Generated.Wiring
 namespace GM.C18
 open GM GM.Semver
 
@@ -64,7 +65,33 @@ theorem decode_rejects_v_prefix (s : String) (hs : s.toList.head? = some 'v') :
     subst hs
     simp [parse, parseInt, isDigit, Except.toOption]
 
+/-- main.go's normalisation of the linker-provided version is the one modelled by `normalizeBuild`
+(regenerated from main.go: the rewriting condition, the rewriting statement, and what is handed to the command) -/
+theorem pin_main_normalisation :
+    Generated.mainTrimCond = "strings.HasPrefix(i.GitVersion, \"v\") && semver.IsValid(i.GitVersion)" ∧
+    Generated.mainTrimBody = ["i.GitVersion = strings.TrimPrefix(i.GitVersion, \"v\")"] ∧
+    Generated.mainVersionHanded = "bv.GitVersion" := by decide
+
+/-- **a leading `v` of the linker-provided version is stripped whenever the rest is a semantic
+version** — whatever prerelease or build suffix it carries — so the gate sees exactly `B` -/
+theorem linker_v_stripped (B : String) (hB : (parseNoV B).isSome) : normalizeBuild ("v" ++ B) = B := by
+  unfold normalizeBuild isValid
+  have hl : ("v" ++ B).toList = 'v' :: B.toList := by simp [String.toList_append]
+  unfold parseNoV at hB
+  simp [hl, hB]
+
+/-- … hence the verdict for a linker version `vB` is the verdict for `B` -/
+theorem linker_gate (B : String) (hB : (parseNoV B).isSome) (g : Option String) :
+    validateVersion (normalizeBuild ("v" ++ B)) g = validateVersion B g := by
+  rw [linker_v_stripped B hB]
+
+/-- a linker version that is not a semantic version is handed on unchanged -/
+theorem linker_non_semver (l : String) (h : isValid l = false) : normalizeBuild l = l := by
+  unfold normalizeBuild
+  simp [h]
+
 -- non-vacuity: the table is exercised by real version strings
+example : normalizeBuild "v1.4.2+build5" = "1.4.2+build5" ∧ normalizeBuild "dev" = "dev" ∧ normalizeBuild "1.4.2" = "1.4.2" := by decide
 example : parse "v0.3.1-alpha.1+b7".toList = some ⟨0, 3, 1, "-alpha.1".toList, "+b7".toList⟩ := by decide
 example : validateVersion "0.3.0" (some "0.3.9") = [] := by decide
 example : validateVersion "0.3.0" (some "0.2.0") ≠ [] := by decide
